@@ -2,7 +2,8 @@ SPEC = dict(
     id="C19",
     bin="c19",
     coq_dir="C19",
-    coq_targets=["C19/Proofs.vo", "C19/Examples.vo"],
+    coq_targets=["C19/Proofs.vo", "C19/Examples.vo", "C19/Cases.vo", "C19/Fmt1Spec.vo", "C19/Proofs2.vo", "C19/Fmt1Proofs.vo", "C19/Dec2Proofs.vo"],
+    props=["C19/Props.v", "C19/Props2.v"],
     allowed_axioms=[],
     level_text=("Unbounded Coq theorems (all decoded mapping tables x all subset definitions x all applied-bit states) about an "
                 "executable model of IFT patch selection: the intersection cache equals the specification's 'check entry intersection' "
@@ -14,19 +15,21 @@ SPEC = dict(
                 "so an extension run has at most #pending successful rounds. The model is tied to the code on every run: real format-2 "
                 "IFT/IFTX tables are built byte by byte, the real intersecting_patches / PatchGroup::select_next_patches / apply_next_patches "
                 "run on them, and coqc evaluates the model on the same decoded entries (candidates incl. intersection infos, URI lists, "
-                "patch_data after each round)."),
-    level_note=("Trusted: Coq kernel; the hand-written model coq/C19/Model.v (agreement with the Rust code is checked by correspondence, not proved); "
-                "the harness encoder/generator. Decoding of the bytes into entries (sparse bit sets, id deltas, flags) and URI template expansion are "
-                "not modelled: the harness states the decoded entries and URIs it intends and the comparison of results covers them indirectly "
-                "(an independent template expansion in the harness is compared with uri_string()). Format-1 tables are covered by the "
-                "implementation-only oracle (generated glyph/feature maps compared with an independent decoder written from the spec; monotone, "
-                "subset-of-all, grouping rules), not by the model. The real extension loop runs with no-op table-keyed and no-op glyph-keyed "
-                "patches (every round must be Err or move a URI Pending->Applied); patch content is C18."),
+                "patch_data after each round). Deepening: format-1 tables are in the model from the table bytes (glyph map, feature map stride/width, applied bitmap, "
+                "invalidating-format rule) with format1_entries_match_spec against the specification; format-2 entries are decoded from the real bytes by a "
+                "Gallina decoder (decode_total, decode_encode) that must reproduce the entries every comparison uses; per-table results are independent."),
+    level_note=("Trusted: Coq kernel; the hand-written models coq/C19/{Model,Dec2,Fmt1}.v (agreement with the Rust code is checked by correspondence, not proved); "
+                "the harness encoder/generator; C14's sparse-bit-set decoder model (SbsModel.decode) used inside the format-2 byte decoder. "
+                "URI template expansion is not modelled (URIs are ordered abstract ids; the harness compares uri_string() with its own expansion). "
+                "The step from table bytes to the abstract tables of the theorems (header field extraction) is tied by correspondence only. "
+                "The real extension loop runs with no-op table-keyed and no-op glyph-keyed patches (every round must be Err or move a URI Pending->Applied); patch content is C18."),
     technique="Coq proof (list/Z reasoning, strong induction over entry index, lexicographic order lemmas) over hand-written Gallina model + vm_compute correspondence with incremental-font-transfer",
     modelled=["incremental-font-transfer/src/patchmap.rs: Entry::intersects, Entry::design_space_intersects, EntryIntersectionCache::{intersects, compute_intersection, all_children_intersect, some_children_intersect}, add_intersecting_format2_patches, intersecting_patches, SubsetDefinition::{all, intersection, design_space_intersection}, IntersectionInfo::{from_subset, design_space_size} and its Ord, decode_format2_entry's child-index and segment checks",
               "incremental-font-transfer/src/patch_group.rs: PatchGroup::{select_next_patches, select_next_patches_from_candidates, select_invalidating_candidate, uris, apply_next_patches_with_decoder (bookkeeping)}, GroupingByInvalidation::group_patches",
+              "incremental-font-transfer/src/patchmap.rs (format 1): add_intersecting_format1_patches, intersect_format1_glyph_map(_inner), intersect_format1_feature_map, merge_intersecting_entries, is_invalidating_format; read-fonts ift.rs: U8Or16, is_entry_applied, entry_records_size, PatchMapFormat1/GlyphMap/FeatureMap/EntryMapRecord readers",
+              "incremental-font-transfer/src/patchmap.rs (format 2 bytes): decode_format2_entries, decode_format2_entry, format2_new_entry_id, compute_format2_new_entry_index, decode_format2_codepoints, PatchFormat::from_format_number; read-fonts PatchMapFormat2/EntryData readers",
               "read-fonts/src/collections/range_set.rs: canonical form of RangeSet<Fixed> (insert/intersection), as used for intersection sizes"],
-    not_covered=["byte-level decoding of format-2 entries (decode_format2_entry/_codepoints, format2_new_entry_id) and of format-1 glyph/feature maps: not modelled; exercised through the harness encoder and, for format 1, by the implementation-only oracle on the font-test-data fixtures",
+    not_covered=["header-level readers (PatchMapFormat1/2, GlyphMap, FeatureMap field extraction) are modelled (Dec2.v, Fmt1.v) and tied by correspondence but their relation to the abstract tables is not proved; decode_encode takes the sparse-bit-set prefix round trip as a hypothesis (C14)",
                  "uri_templates.rs expansion: URIs are abstract ordered identifiers in the model; the harness compares uri_string() with its own expansion for the templates it uses",
                  "entry-side FeatureSet::All / DesignSpace::All / inverted codepoint sets (arms of Entry::intersects and SubsetDefinition::intersection that no decoded table reaches)",
                  "actual patch application (C18): the extension-loop model takes success of the patch application as a boolean; the real loop is run with no-op table-keyed patches only"],
